@@ -43,7 +43,12 @@ def grammar_cpp(g, lexer='tok', ctx=None, ns='g', limits=None, lexer_type=None, 
             if f == 'hash':
                 rs.append('%s >= [](%s){ return hv::%s(%s); }' % (head, ', '.join(ps), ('redv<%s>' % vt) if vt != 'unsigned' else 'red', ', '.join([str(ri)] + args)))
             else:
-                rs.append('%s >>= [](%s){ hv::ctx_touch(c); return hv::%s(%s); }' % (head, ', '.join(['HV_CTX_PARAM c'] + ps), ('redv<%s>' % vt) if vt != 'unsigned' else 'red', ', '.join([str(ri)] + args)))
+                if r['prec'] != 0 and vt == 'unsigned':
+                    # precedence attached AFTER the contextual functor: (rule >>= f)[n]; the functor is callable with and without context and flags the latter
+                    head0 = head[:head.rindex('[')]
+                    rs.append('(%s >>= hv::ctxf<%d>{})[%d]' % (head0, ri, r['prec']))
+                else:
+                    rs.append('%s >>= [](%s){ hv::ctx_touch(c); return hv::%s(%s); }' % (head, ', '.join(['HV_CTX_PARAM c'] + ps), ('redv<%s>' % vt) if vt != 'unsigned' else 'red', ', '.join([str(ri)] + args)))
         elif f == 'default': rs.append(head)
         elif f in ('e1', 'e2', 'e3'): rs.append('%s >= _%s' % (head, f))
         else: raise Exception(f)
@@ -65,7 +70,7 @@ def parse_wrapper_cpp(g, ns='g', variant='plain', ctxkind=0):
             'hv::state hv::hv_S; const void* hv::hv_ctx_addr = nullptr; unsigned hv::hv_ctx_tag = 0; hv::lex_state hv::hv_L;\n')
     ctxp = {0: 'hv::ctx_t&', 1: 'const hv::ctx_t&', 2: 'hv::ctx_t', 3: 'hv::mo_ctx&&', 4: 'hv::ctx_t&'}[ctxkind]
     head += '#define HV_CTX_PARAM %s\n' % ctxp
-    head += grammar_cpp(g, ns=ns, lexer_type=lexer_type, vt=('hv::trk' if variant == 'trk' else 'hv::trk' if variant == 'trkctx' else 'unsigned')) + '\n'
+    head += grammar_cpp(g, ns=ns, lexer_type=lexer_type, vt=('hv::trk' if variant == 'trk' else 'hv::trk' if variant == 'trkctx' else 'hv::agg' if variant == 'agg' else 'unsigned')) + '\n'
     setup = ('    char b[LEN + 1];\n'
              '    for (int i = 0; i < LEN; i++) b[i] = (char)in[i];\n'
              '    b[LEN] = 0;\n'
@@ -84,7 +89,9 @@ def parse_wrapper_cpp(g, ns='g', variant='plain', ctxkind=0):
     alt = ('        out[O_ALT_OK] = r0.has_value() ? 1u : 0u; out[O_ALT_VALUE] = r0.has_value() ? *r0 : 0u; out[O_ALT_NRED] = hv::hv_S.nred;\n'
            '        hv::reset();\n')
     sig = 'const uint8_t* in, uint32_t opts, uint32_t* out'
-    if variant == 'trk':
+    if variant == 'agg':
+        body = setup + '    auto r = %s::p.parse(o, cstring_buffer<LEN + 1>(b), s);\n' % ns + fin.replace('*r : 0u', 'r->v : 0u')
+    elif variant == 'trk':
         body = setup + '    auto r = %s::p.parse(o, cstring_buffer<LEN + 1>(b), s);\n' % ns + fin.replace('*r : 0u', 'r->v : 0u') + '    if (r.has_value() && r->st != 1) out[O_FLAGS] |= 16u;\n    out[O_CTX] = hv::hv_S.moves;\n'
     elif variant == 'plain':
         body = setup + '    auto r = %s::p.parse(o, cstring_buffer<LEN + 1>(b), s);\n' % ns + fin
